@@ -2443,6 +2443,8 @@ func (c *Compiler) refineType(cfgNode, n parse.Node, tname xml.Name, typ schema.
 		typ = c.makeLeafref(n, tname, t, def, hasDef)
 	case schema.Identityref:
 		typ = c.makeIdentityRef(tname, cfgNode, n, t, parentStatus, def, hasDef)
+	case schema.Bits:
+		typ = c.makeBits(n, t)
 	default:
 		c.error(n, errors.New("cannot modify type"))
 	}
